@@ -115,6 +115,19 @@ func genGroupCase(t *rapid.T, withID bool) groupCase {
 		perm = append(append([]string(nil), wideKeys...), rest[:nk]...)
 		nk = len(perm)
 	}
+	// now and then the frame is already ordered on a prefix of the keys (an input grouping code likes to special-case)
+	if nk > 0 && rapid.IntRange(0, 5).Draw(t, "presortedkeys") == 0 {
+		np := rapid.IntRange(1, nk).Draw(t, "sortprefix")
+		var os []qframe.Order
+		for _, k := range perm[:np] {
+			os = append(os, qframe.Order{Column: k, Reverse: rapid.Bool().Draw(t, "sortrev")})
+		}
+		if sorted := d.QF.Sort(os...); sorted.Err == nil {
+			d.QF = sorted
+			d.Route = append(d.Route, fmt.Sprintf("sorted on the first %d key(s)", np))
+			in = d.Input(t)
+		}
+	}
 	return groupCase{d: d, in: in, keys: append([]string(nil), perm[:nk]...), groupNull: rapid.Bool().Draw(t, "groupnull"), filled: filled,
 		optForm: rapid.IntRange(0, 3).Draw(t, "optform")}
 }
